@@ -164,6 +164,18 @@ class C18(Check):
                         )
                 else:
                     pr["no_requirement_under_11s"] += 1
+            elif pt.get("write_call") and pt["t_issue"] - f > AGE_US:
+                # a write call that matched nothing (delete of an id that is not there) has nothing of its own to make
+                # durable, but it is a write arriving more than ten seconds after the last flush: what was buffered
+                # before it must not stay at risk ("data at risk is bounded in age" under a trickle of such calls)
+                pr["age_requirement_noop_write"] += 1
+                if j < pt["n_before"]:
+                    raise Violation(
+                        "age_flush",
+                        "%s (matching nothing) issued %.3f s after the last possible flush returned and left %d older acknowledged writes buffered (step %d)"
+                        % (pt["op"], (pt["t_issue"] - f) / 1e6, pt["n_before"] - j, pt["step"]),
+                        {"op": pt["op"], "step_index": pt["step"], "kind": "noop_write"},
+                    )
             if j > prev_j or j == pt["n"]:
                 f = pt["t_us"]
             prev_j = j
